@@ -26,6 +26,13 @@ only when the lifetime test passes; a failed renewal records server and
 expiry before removing and restores exactly those.  C03.6 unknown required
 traits are unsatisfiable (use_invalid=True for instance and allocation
 encoders, never for the server encoder; INVALID bit reserved).
+Added by the seeding rounds - C03.1 a granted expiry is now + lease (computed
+grants only) and placement happens only after the lifetime test passed (judged
+by what the test establishes, through helpers and compound locals); C03.2 the
+lease is re-instated on every exit of restore (shared with C01.6); C03.5 a
+renewal is refused only for an instance that has a lease and the fallback
+restores exactly the recorded server and expiry; C03.6 every new trait gets a
+fresh code bit and unknown traits are unsatisfiable.
 Does NOT decide that a granted expiry never exceeds the reboot time over
 clock advances.
 """
